@@ -200,7 +200,7 @@ func init() {
 		ID:    "C17",
 		Level: "exploration",
 		Rule: "cases are all combinations of {debug on, off} x {no custom error page, a valid one, one whose file is missing, one that fails at run time} x templates that succeed, fail at statement i of n for every i (n <= 4) at top level, in pass i of a loop, inside an insert block, inside the layout, inside a component file, inside a slot body, inside a component argument, inside a component argument the component never reads, inside the expression of a two-argument insert, or name an unknown template or a layout, x 35 run-time fault kinds (two with a percent sign in the message; the directory name holds one too); sequences of 2-4 configurations without a reset in between that differ in the debug flag only (the last one governs); the configurations follow each other in one process in seeded order (a stale page cached from another configuration would show). " +
-			"A recording http.ResponseWriter captures body and writes; pages, identifiers, file names and the scratch directory carry sentinels, so 'part of the failed page', 'the message' and 'a path' are substring tests; the expected page is selected by the table of the statement. round 8: places after multi-line tokens and in a name ending in the extension (absolute path:line), a working error page assigning names the data holds; round 9: nested render, dot directories; scale: pages to 8 MiB; rounds 10-11: nil-holding names, argument-less built-ins, deep re-typing; rounds 12-13: error page that becomes usable, nil insert arguments, wrong-kind arguments behind deciding ones, float divisions by zero that have a value; round 14: two appends on one array, unused truncate arguments; round 15: slots after a component under CRLF; distinct_nontrivial = distinct (configuration, place, fault, position) combinations",
+			"A recording http.ResponseWriter captures body and writes; pages, identifiers, file names and the scratch directory carry sentinels, so 'part of the failed page', 'the message' and 'a path' are substring tests; the expected page is selected by the table of the statement. round 8: places after multi-line tokens and in a name ending in the extension (absolute path:line), a working error page assigning names the data holds; round 9: nested render, dot directories; scale: pages to 8 MiB; rounds 10-11: nil-holding names, argument-less built-ins, deep re-typing; rounds 12-13: error page that becomes usable, nil insert arguments, wrong-kind arguments behind deciding ones, float divisions by zero that have a value; round 14: two appends on one array, unused truncate arguments; round 15: slots after a component under CRLF; round 16: negative counts on empty receivers among the failing pages; distinct_nontrivial = distinct (configuration, place, fault, position) combinations",
 		Assumptions: []string{
 			"configuration is set through NewTemplate after the verif reset hook (fields are sticky otherwise)",
 			"with debug on the line is only checked for being present as ':<line>' after the path",
